@@ -33,6 +33,22 @@ package main
 //	                                afterwards (a second App sharing the Configure | the same App after a failed creation |
 //	                                a LazyInit component fetched after a successful start)
 //
+// A component edits the untyped map / list it was given, another component binds the same subtree (section "(3) kind HM"):
+//
+//	HM mode cfg muts eager late     the eager holder binds sections / lists by prefix into map[string]any / []any fields, the top
+//	                                level of those values is edited in place (by the harness, or by the component's Init), the
+//	                                late holder binds the same subtrees: it must get the CONFIGURED value
+//
+// More flags of the kinds V3 E Q (the model ignores them, they must not change what is bound; section "sixth round"):
+//
+//	y<n>  the YAML document is written in style n of vlYamlDocStyled (block scalars `|` `|-` `|+` `>` as the last value of the
+//	      document, a byte order mark and blank lines in front, the document indented as a whole, no final line break); the key
+//	      the last tag names is written last
+//	f     the document is written to a file and loaded by loader.NewFileLoader (the others use loader.NewRawLoader); both go
+//	      through configure.loadConfigure and the binder's SetConfig
+//	e<n>  the tagged fields live in an anonymous embedded struct of the holder, n = 1 | 2 levels deep (reflect.StructOf)
+//	g<n>  the holder is the Go-declared type number n of vlGoHolders (fields promoted through Go's own embedding)
+//
 // ty      S string | I int | J int64 | U uint | D float64 | B bool | A any | P<ty> | L<ty> | M<ty> | T(hexname:ty:hexvalidate,…)
 // cfg     m(hexkey=val,…)   val = z | s<hex> | i<dec> | F<dec> (integer valued float) | f<decimal> | b0 | b1 | l(val,…) | m(hexkey=val,…)
 // evals   e(hexexpr=val|!,…)   what expr.Compile/Run gives DIRECTLY for the expression texts the real run meets
@@ -69,11 +85,18 @@ package main
 //        set): C17 V = P = X and X = the current document value; C18 the expression is evaluated on the current
 //        values and validation judges the value actually bound.  A field that still shows what the FIRST configuration
 //        gave is reported as repopulate-stale.
+//   kind HS also: setget-sibling-lost — the KNOWN defect KF-C17-9: after Set on one key of a section, a member of a struct / a
+//        key of a map bound by prefix through the section (or a higher ancestor) that NO Set is at, above or below is lost
+//        (zero / missing) although prop / ${} / prefix on the member itself still give the document's value; any other
+//        difference of such a member is setget-current.
+//   kind HM: bound-aliased — a late field does not hold the document's value after the owner of ANOTHER field edited its
+//        own bound map / list (no Set anywhere).
 
 import (
 	"fmt"
 	"math"
 	"math/big"
+	"os"
 	"reflect"
 	"regexp"
 	"sort"
@@ -83,6 +106,7 @@ import (
 
 	"github.com/expr-lang/expr"
 	"github.com/go-kid/ioc/app"
+	"github.com/go-kid/ioc/configure"
 	"github.com/go-kid/ioc/configure/loader"
 	"github.com/go-kid/ioc/definition"
 	"github.com/go-kid/ioc/syslog"
@@ -923,27 +947,51 @@ func vlPrefillSafe(doc string, texts []string) bool {
 	return true
 }
 
-func vlRunHolder(t reflect.Type, tags []string, doc string, prefill, dep bool) (vals []reflect.Value, outcome string) {
+func vlRunHolder(t reflect.Type, tags []string, doc string, prefill, dep bool, opt vlHolderOpt) (vals []reflect.Value, outcome string) {
 	var fs []reflect.StructField
 	for i, tg := range tags {
 		fs = append(fs, reflect.StructField{Name: fmt.Sprintf("H%d", i), Type: t, Tag: reflect.StructTag(tg)})
+	}
+	// flag e<n>: the tagged fields sit in an anonymous embedded struct (no tag on the embedded field: the container
+	// flattens it into the holder's own properties), n levels deep; every level has an untagged field of its own
+	for d := 0; d < opt.embed; d++ {
+		fs = []reflect.StructField{{Name: fmt.Sprintf("Emb%d", d), Type: reflect.StructOf(fs), Anonymous: true},
+			{Name: fmt.Sprintf("Own%d", d), Type: reflect.TypeOf("")}}
 	}
 	comps := []any{nil}
 	if dep {
 		fs = append(fs, reflect.StructField{Name: "Dep", Type: reflect.TypeOf((*vlValueDep)(nil)), Tag: `wire:",required=false"`})
 		comps = append(comps, &vlValueDep{})
 	}
-	holder := reflect.New(reflect.StructOf(fs))
+	var holder, inner reflect.Value
+	if opt.gotype > 0 {
+		holder, inner = vlGoHolders[opt.gotype-1].mk()
+	} else {
+		holder = reflect.New(reflect.StructOf(fs))
+		inner = holder.Elem()
+		for d := 0; d < opt.embed; d++ {
+			inner = inner.Field(0)
+		}
+	}
 	comps[0] = holder.Interface()
 	if prefill {
 		for i := range tags {
-			vlPrefill(holder.Elem().Field(i))
+			vlPrefill(inner.Field(i))
 		}
+	}
+	ld := configure.Loader(loader.NewRawLoader([]byte(doc)))
+	if opt.file {
+		path, err := vlWriteDocFile(doc)
+		if err != nil {
+			return nil, "err"
+		}
+		defer os.Remove(path)
+		ld = loader.NewFileLoader(path)
 	}
 	var err error
 	pan := hx.Guard(func() {
 		a := app.NewApp()
-		err = a.Run(app.LogLevel(syslog.LvPanic), app.SetConfigLoader(loader.NewRawLoader([]byte(doc))), app.SetComponents(comps...))
+		err = a.Run(app.LogLevel(syslog.LvPanic), app.SetConfigLoader(ld), app.SetComponents(comps...))
 		a.Close()
 	})
 	if pan != nil {
@@ -953,16 +1001,33 @@ func vlRunHolder(t reflect.Type, tags []string, doc string, prefill, dep bool) (
 		return nil, "err"
 	}
 	for i := range tags {
-		vals = append(vals, holder.Elem().Field(i))
+		vals = append(vals, inner.Field(i))
 	}
 	return vals, "ok"
 }
 
+// vlWriteDocFile: the document as a file of its own (for loader.NewFileLoader).
+func vlWriteDocFile(doc string) (string, error) {
+	f, err := os.CreateTemp("", "vlcfg-*.yaml")
+	if err != nil {
+		return "", err
+	}
+	_, err = f.WriteString(doc)
+	if cerr := f.Close(); err == nil {
+		err = cerr
+	}
+	if err != nil {
+		os.Remove(f.Name())
+		return "", err
+	}
+	return f.Name(), nil
+}
+
 // vlObserveOnce: one start-up of the scenario (for several tags that fail together, one holder per tag);
 // remnant = a bound field still contains a piece of its default.
-func vlObserveOnce(t reflect.Type, tagStrs []string, doc string, prefill, dep bool) (obs []string, remnant bool) {
+func vlObserveOnce(t reflect.Type, tagStrs []string, doc string, prefill, dep bool, opt vlHolderOpt) (obs []string, remnant bool) {
 	obs = make([]string, len(tagStrs))
-	vals, outcome := vlRunHolder(t, tagStrs, doc, prefill, dep)
+	vals, outcome := vlRunHolder(t, tagStrs, doc, prefill, dep, opt)
 	switch {
 	case outcome == "ok":
 		for i := range tagStrs {
@@ -973,7 +1038,7 @@ func vlObserveOnce(t reflect.Type, tagStrs []string, doc string, prefill, dep bo
 		obs[0] = outcome
 	default:
 		for i := range tagStrs {
-			v1, o1 := vlRunHolder(t, tagStrs[i:i+1], doc, prefill, dep)
+			v1, o1 := vlRunHolder(t, tagStrs[i:i+1], doc, prefill, dep, opt)
 			if o1 == "ok" {
 				obs[i] = vlRender(v1[0])
 				remnant = remnant || (prefill && vlHasRemnant(v1[0]))
@@ -987,14 +1052,14 @@ func vlObserveOnce(t reflect.Type, tagStrs []string, doc string, prefill, dep bo
 
 // vlObserve: vlDepStarts start-ups when the holder has both property groups (their order is Go's map order),
 // one otherwise; a field whose outcome is not the same in every start is `unstable(a|b)`.
-func vlObserve(t reflect.Type, tagStrs []string, doc string, prefill, dep bool) (obs []string, remnant, unstable bool) {
+func vlObserve(t reflect.Type, tagStrs []string, doc string, prefill, dep bool, opt vlHolderOpt) (obs []string, remnant, unstable bool) {
 	starts := 1
 	if dep {
 		starts = vlDepStarts
 	}
 	var all [][]string
 	for s := 0; s < starts; s++ {
-		o, rem := vlObserveOnce(t, tagStrs, doc, prefill, dep)
+		o, rem := vlObserveOnce(t, tagStrs, doc, prefill, dep, opt)
 		all = append(all, o)
 		remnant = remnant || rem
 	}
@@ -1246,12 +1311,16 @@ type vlVcase struct {
 	literal bool        // C17 literal variant: the V tag is a literal text, subject = its intended value
 	prefill bool        // flag p: the fields hold non-zero defaults before Run
 	dep     bool        // flag d: the holder also has an optional component field
+	ystyle  int         // flag y<n>: how the YAML document is written (0 = flow style on one line per key), see vlYamlDocStyled
+	file    bool        // flag f: the document is written to a file and loaded by loader.NewFileLoader
+	embed   int         // flag e<n>: the tagged fields live in an anonymous embedded struct, n levels deep (by value)
+	gotype  int         // flag g<n>: the holder is the Go-declared type number n of vlGoHolders (tags and type fixed by the table)
 	set     *vlCval     // kinds R3 RE RQ: the keys changed with app.Set between the two creations (a map)
 	gate    string      // kinds R3 RE RQ: why the first creation fails: n | a0 | a1 | w
 	labels  []string
 }
 
-func vlKindTok(kind string, prefill, dep bool) string {
+func vlKindTok(kind string, prefill, dep bool, more ...string) string {
 	fl := ""
 	if prefill {
 		fl += "p"
@@ -1259,10 +1328,52 @@ func vlKindTok(kind string, prefill, dep bool) string {
 	if dep {
 		fl += "d"
 	}
+	fl += strings.Join(more, "")
 	if fl != "" {
 		return kind + "+" + fl
 	}
 	return kind
+}
+
+// vlHolderOpt: how the holder of a case is built and fed (flags y f e g of the kind token; none of them may change what
+// is bound, the model ignores them).
+type vlHolderOpt struct {
+	file   bool // the document goes through a file and loader.NewFileLoader
+	embed  int  // the tagged fields live in an anonymous embedded struct, this many levels deep
+	gotype int  // > 0: the Go-declared holder vlGoHolders[gotype-1]
+}
+
+func (c *vlVcase) holderOpt() vlHolderOpt { return vlHolderOpt{c.file, c.embed, c.gotype} }
+
+func (c *vlVcase) moreFlags() string {
+	fl := ""
+	if c.ystyle > 0 {
+		fl += "y" + strconv.Itoa(c.ystyle)
+	}
+	if c.file {
+		fl += "f"
+	}
+	if c.embed > 0 {
+		fl += "e" + strconv.Itoa(c.embed)
+	}
+	if c.gotype > 0 {
+		fl += "g" + strconv.Itoa(c.gotype)
+	}
+	return fl
+}
+
+// vlFlagNum: the number behind flag letter `l` in the flags of a kind token (0 = flag absent).
+func vlFlagNum(flags string, l byte) int {
+	i := strings.IndexByte(flags, l)
+	if i < 0 {
+		return 0
+	}
+	j := i + 1
+	for j < len(flags) && flags[j] >= '0' && flags[j] <= '9' {
+		j++
+	}
+	n, _ := strconv.Atoi(flags[i+1 : j])
+	return n
 }
 
 func vlEncEvals(es []vlEvalEntry) (string, bool) {
@@ -1313,8 +1424,17 @@ type vlDirectRes struct {
 var vlHistBase = map[string]string{"R3": "V3", "RE": "E", "RQ": "Q"}
 
 func vlRunCase(c *vlVcase, w *hx.Writer) {
+	if !vlGoHolderFits(c) {
+		return
+	}
+	if c.gotype > 0 {
+		c.dep, c.embed = false, 0 // the Go-declared holders are what they are
+	}
 	rt := c.t.rtype()
 	doc := vlYamlDoc(c.cfg)
+	if c.ystyle > 0 && len(c.tags) > 0 {
+		doc = vlYamlDocStyled(c.cfg, c.ystyle, vlTagText(c.tags[len(c.tags)-1]))
+	}
 	cfgNative, _ := c.cfg.native().(map[string]any)
 	hist := c.set != nil
 	base := c.kind
@@ -1469,14 +1589,18 @@ func vlRunCase(c *vlVcase, w *hx.Writer) {
 	if hist {
 		obs = vlObserveHistory(rt, tagStrs, doc, c.set, c.gate)
 	} else {
-		obs, remnant, unstable = vlObserve(rt, tagStrs, doc, prefill, c.dep)
+		obs, remnant, unstable = vlObserve(rt, tagStrs, doc, prefill, c.dep, c.holderOpt())
 	}
 
 	var hexTags []string
 	for _, tx := range texts {
 		hexTags = append(hexTags, hx.Hex(tx))
 	}
-	head := []string{vlKindTok(c.kind, prefill, c.dep && !hist), c.t.code(), c.cfg.tok(), evTok, verdTok}
+	more := ""
+	if !hist {
+		more = c.moreFlags()
+	}
+	head := []string{vlKindTok(c.kind, prefill, c.dep && !hist, more), c.t.code(), c.cfg.tok(), evTok, verdTok}
 	if hist {
 		head = append(head, c.set.tok(), c.gate)
 	}
@@ -1506,6 +1630,21 @@ func vlRunCase(c *vlVcase, w *hx.Writer) {
 	}
 	if c.dep && !hist {
 		cs2.Tags = append(append([]string{}, cs2.Tags...), "dep")
+	}
+	if more != "" {
+		cs2.Tags = append([]string{}, cs2.Tags...)
+		if c.ystyle > 0 {
+			cs2.Tags = append(cs2.Tags, fmt.Sprintf("doc-style%d", c.ystyle))
+		}
+		if c.file {
+			cs2.Tags = append(cs2.Tags, "file-loader")
+		}
+		if c.embed > 0 {
+			cs2.Tags = append(cs2.Tags, fmt.Sprintf("embed%d", c.embed))
+		}
+		if c.gotype > 0 {
+			cs2.Tags = append(cs2.Tags, "go-holder")
+		}
 	}
 
 	// ---- oracles
@@ -1962,6 +2101,10 @@ func vlValueReplay(scn string, w *hx.Writer) {
 		vlHSReplay(f, w)
 		return
 	}
+	if len(f) > 0 && f[0] == "HM" {
+		vlHMReplay(f, w)
+		return
+	}
 	if len(f) < 6 {
 		return
 	}
@@ -1975,7 +2118,11 @@ func vlValueReplay(scn string, w *hx.Writer) {
 	}
 	kind, flags, _ := strings.Cut(f[0], "+")
 	c := &vlVcase{kind: kind, t: t, cfg: cfg, labels: []string{"replay"},
-		prefill: strings.Contains(flags, "p"), dep: strings.Contains(flags, "d")}
+		prefill: strings.Contains(flags, "p"), dep: strings.Contains(flags, "d"),
+		ystyle: vlFlagNum(flags, 'y'), file: strings.Contains(flags, "f"), embed: vlFlagNum(flags, 'e'), gotype: vlFlagNum(flags, 'g')}
+	if c.embed > 2 || c.ystyle > vlDocStyles || c.gotype > len(vlGoHolders) {
+		return
+	}
 	tagToks := f[5:]
 	base := kind
 	if b, hist := vlHistBase[kind]; hist {
@@ -1994,6 +2141,7 @@ func vlValueReplay(scn string, w *hx.Writer) {
 		}
 		c.set, c.gate, base, tagToks = set, f[6], b, f[7:]
 		c.prefill, c.dep = false, false
+		c.ystyle, c.file, c.embed, c.gotype = 0, false, 0, 0
 	}
 	want := map[string]int{"V3": 3, "E": 1, "Q": 1}[base]
 	if want == 0 || len(tagToks) != want {
@@ -4041,6 +4189,15 @@ func vlValueGen(rng *hx.Rng, n int, tier string, w *hx.Writer) {
 			vlRunHS(vlGenHS(r), w)
 		}
 	}
+	// … one further case in ten writes its document in another YAML style (block scalars at the end of the document, a byte
+	// order mark, an indented document, no final line break), now and then through a file
+	for i := 0; i < n/10; i++ {
+		vlRunCase(vlGenC17Doc(rng.Fork()), w)
+	}
+	// … and one history in twenty-five in which a component edits the untyped map / list it was given (kind HM)
+	for i := 0; i < n/25; i++ {
+		vlRunHM(vlGenHM(rng.Fork()), w)
+	}
 }
 
 func init() {
@@ -4072,6 +4229,10 @@ func init() {
 		// … and one more in twelve carries quote characters in the value part of its tag, in front of a validate argument
 		for i := 0; i < n/12; i++ {
 			vlRunCase(vlGenQuoteTextCase(rng.Fork()), w)
+		}
+		// … and one more in twelve has its tagged field in an anonymous embedded struct of the holder (one or two levels deep)
+		for i := 0; i < n/12; i++ {
+			vlRunCase(vlGenEmbeddedCase(rng.Fork()), w)
 		}
 	}, Replay: vlValueReplay, Corpus: vlValueExprCorpus})
 }
@@ -4170,6 +4331,8 @@ func vlValueCorpus(w *hx.Writer) {
 	}
 	vlValueRetryCorpus(w)
 	vlValueHSCorpus(w)
+	vlValueDocCorpus(w)
+	vlValueHMCorpus(w)
 }
 
 // vlValueHSCorpus: a start, app.Set, a later population (kind HS): the later holder shows the CURRENT configuration.
@@ -4205,6 +4368,10 @@ func vlValueHSCorpus(w *hx.Writer) {
 		mk(early, []vlSetOp{{"svc", svc}, {"cache", vlCMap(map[string]*vlCval{"ttl": vlCInt(60)})}}, lateSvc)
 		mk(early, []vlSetOp{{"SVC.URL", vlCStr("http://new.example")}, {"cache.ttl", vlCInt(60)}}, lateSvc)
 		mk(early, nil, lateSvc) // nothing is set: the later holder shows the document
+		// KF-C17-9 (oracle setget-sibling-lost): Set("db.host") and a later binding of the WHOLE section: the struct gets port 0,
+		// the map has neither port nor pool, while the shorthand / placeholder / prefix on `db.port` itself give 5432
+		mk([]vlHField{{"prefix", db, "db"}}, []vlSetOp{{"db.host", replica}},
+			[]vlHField{{"prefix", db, "db"}, {"prefix", vlTMA, "db"}, {"prop", vlTI, "db.port"}, {"value", vlTI, "${db.port}"}, {"prefix", vlTI, "db.port"}, {"value", vlTS, "${db.host}"}})
 	}
 	for n := range vlLazyTable {
 		mk := func(eager []vlHField, ops ...vlSetOp) {
@@ -4414,6 +4581,7 @@ func vlValueExprCorpus(w *hx.Writer) {
 	vlRunCase(hist(vlTS, map[string]*vlCval{"kz": vlCStr("zz")}, map[string]*vlCval{"kz": vlCStr("yy")}, "w", "", vlTExpr(vlTLit("1+2"))), w) // no placeholder at all
 	rq := &vlVcase{kind: "RQ", t: st, cfg: vlCMap(m("ab", 80)), set: vlCMap(m("a", 80)), gate: "w", args: ",validate", tags: [][]vlTnode{{vlTLit("k")}}, labels: []string{"corpus", "retry", "gate-w"}}
 	vlRunCase(rq, w)
+	vlValueEmbeddedCorpus(w)
 }
 
 // ---------------------------------------------------------------- histories with app.Set between two populations (kind HS)
@@ -4450,6 +4618,13 @@ func vlValueExprCorpus(w *hx.Writer) {
 // placeholder text placeholder by placeholder: the field must hold the CURRENT value converted to its type.  A field that
 // shows what the document said before Set: setget-stale; any other difference: setget-current; an eager field that does
 // not hold the document's value: setget-first.
+//
+// Sixth round — the first kind of path also when it is reached THROUGH a binding of an ancestor: a member of a struct (a key
+// of a map[string]…) bound by `prefix:"db"` whose own path no Set is at, above or below, while some Set went below `db`
+// beside it.  Its configured value is the document's (nothing changed it; `prop:"db.port"` says so too).  The library loses
+// it — finding KF-C17-9, kept in the model (`Binder.get`), pinned by C17_set_sibling_lost_counterexample: reported as
+// setget-sibling-lost exactly when the member is LOST (struct member zero, map key missing); a member that holds some other
+// wrong value is setget-current like every other difference.  Both verdicts of one history are reported (" ;; ").
 
 type vlSetOp struct {
 	path string
@@ -4787,6 +4962,41 @@ type vlCurView struct {
 	set  *vlCval    // the values handed to Set, composed
 	ops  [][]string // their paths
 	note string
+	lost []string // members of prefix-bound structs / maps that no Set touched and that were LOST (finding KF-C17-9)
+}
+
+// untouched: no Set is at, above or below the path.
+func (cv *vlCurView) untouched(path []string) bool {
+	for _, op := range cv.ops {
+		if vlIsPrefix(op, path) || vlIsPrefix(path, op) {
+			return false
+		}
+	}
+	return true
+}
+
+// judgeSibling: a member reached through a prefix binding of an ancestor — a member of a struct, a key of a map — that no
+// Set is at, above or below, while some Set went below that ancestor (beside the member): its configured value is still the
+// document's value.  The known defect KF-C17-9 LOSES such a member (the ancestor is answered from what was handed to Set
+// alone: the struct member stays zero, the map key is missing); that — and only that — is recorded in cv.lost.  A member
+// that holds anything else than the document's value or nothing is an ordinary difference.
+func (cv *vlCurView) judgeSibling(path []string, t *vlFty, got reflect.Value, present bool) (diff string, claimed int) {
+	docv := vlGetPath(cv.doc, path)
+	if docv == nil || docv.k == 'z' {
+		return "", 0
+	}
+	want, err := vlDirectDecode(docv.native(), t.rtype())
+	if err != nil {
+		return "", 0
+	}
+	switch {
+	case present && vlRender(want) == vlRender(got):
+		return "", 1
+	case !present || vlRender(got) == vlZeroRender(t):
+		cv.lost = append(cv.lost, fmt.Sprintf("%s is lost (configured %s)", strings.Join(path, "."), vlRender(want)))
+		return "", 1
+	}
+	return fmt.Sprintf("prefix member %s holds %s, configured %s", strings.Join(path, "."), vlRender(got), vlRender(want)), 1
 }
 
 func vlNewCurView(doc *vlCval, ops []vlSetOp) *vlCurView {
@@ -4941,6 +5151,11 @@ func (cv *vlCurView) judgePrefix(path []string, t *vlFty, got reflect.Value, roo
 		}
 		return "", 1, true
 	}
+	if !root && cv.untouched(path) {
+		// a member beside the paths that were set
+		d, n := cv.judgeSibling(path, t, got, true)
+		return d, n, false
+	}
 	// not sure of the subtree as a whole: a struct is judged member by member
 	st := t
 	if st.k == 'P' && st.elem.k == 'T' {
@@ -4948,6 +5163,28 @@ func (cv *vlCurView) judgePrefix(path []string, t *vlFty, got reflect.Value, roo
 			return "", 0, false
 		}
 		st, got = st.elem, got.Elem()
+	}
+	if st.k == 'M' && got.Kind() == reflect.Map {
+		// … a map key by key, over the keys the document has: the keys that no Set is near
+		if docv := vlGetPath(cv.doc, path); docv != nil && docv.k == 'm' {
+			for _, k := range docv.mk {
+				kp := append(append([]string{}, path...), k)
+				if !cv.untouched(kp) {
+					continue
+				}
+				e := got.MapIndex(reflect.ValueOf(k))
+				present := e.IsValid()
+				if !present {
+					e = reflect.Zero(st.elem.rtype())
+				}
+				d, n := cv.judgeSibling(kp, st.elem, e, present)
+				claimed += n
+				if d != "" && diff == "" {
+					diff = d
+				}
+			}
+		}
+		return diff, claimed, false
 	}
 	if st.k != 'T' {
 		return "", 0, false
@@ -5012,6 +5249,17 @@ func vlRunHS(c *vlHSCase, w *hx.Writer) {
 		}
 		if claimed > 0 {
 			out.Tags = append(out.Tags, "judged")
+		}
+		// the known defect is reported NEXT TO whatever else the history shows, under its own signature
+		if late != nil && len(cur.lost) > 0 {
+			lost := fmt.Sprintf("FAIL setget-sibling-lost after %s: bound by prefix through an ancestor, %s — no Set touched it, a Set touched a sibling below the same ancestor",
+				vlOpsTok(c.ops), strings.Join(cur.lost, "; "))
+			if out.Oracle == "" {
+				out.Oracle = lost
+			} else {
+				out.Oracle += " ;; " + lost
+			}
+			out.Tags = append(out.Tags, "sibling-lost")
 		}
 	}
 	w.Put(out)
@@ -5383,4 +5631,1010 @@ func vlGenHSLazy(r *hx.Rng) *vlHSCase {
 	}
 	c.labels = []string{"lazy"}
 	return c
+}
+
+// ================================================================ sixth round
+//
+// (1) how the document is WRITTEN (flags y<n>, f of the kind token): the value unit feeds every configuration through the
+//     real loading path — a loader, configure.loadConfigure, the binder's SetConfig — but wrote every document in one way
+//     (one `"key": <flow value>` line per key, a line break at the end).  vlYamlDocStyled writes the same configuration in
+//     other YAML shapes — the harness's own emitter, from the intended value — so that what surrounds the LAST value of a
+//     document matters: a block scalar (`|` `|-` `|+`, `>`), whose trailing line breaks are part of the value, as the last
+//     thing of the document; a document behind a byte order mark, blank lines and a comment; a document indented as a
+//     whole; a document that ends right behind a closing quote.  The oracle is the C17 oracle, against the string the
+//     harness put into the document.
+// (2) where the tagged field SITS (flags e<n>, g<n>): in an anonymous embedded struct of the holder, one or two levels deep —
+//     the container flattens embedded structs into the holder's own properties, so the expression and validation stages
+//     must treat such a field like a field of the holder itself (C18: start-up fails iff the constraint is violated).
+// (3) kind HM: a component edits the value it was given.
+
+// ---------------------------------------------------------------- (1) document styles
+
+const vlDocStyles = 6
+
+const vlBOM = "\xef\xbb\xbf"
+
+// vlBlockOK: the string can be written as a literal block scalar by vlBlockScalar (printable text, line breaks, tabs; at
+// least one character that is not a line break).
+func vlBlockOK(s string) bool {
+	if !utf8.ValidString(s) {
+		return false
+	}
+	body := strings.TrimRight(s, "\n")
+	if strings.TrimLeft(body, "\n") == "" {
+		return false
+	}
+	for _, r := range body {
+		if r == '\n' || r == '\t' {
+			continue
+		}
+		if r < 0x20 || r == 0x7f || r == 0x85 || r == 0xa0 || r == 0x2028 || r == 0x2029 || r == 0xfeff || r == 0xfffd {
+			return false
+		}
+	}
+	return true
+}
+
+// vlFoldOK: … as a folded block scalar: one line of text (nothing to fold), not starting with a blank.
+func vlFoldOK(s string) bool {
+	body := strings.TrimRight(s, "\n")
+	return vlBlockOK(s) && !strings.Contains(body, "\n") && body[0] != ' ' && body[0] != '\t'
+}
+
+// vlBlockScalar: header and lines of a block scalar (ind = '|' literal or '>' folded) below a node at column col.  The
+// indentation is declared (`|2`), so leading blanks and leading empty lines belong to the text; the chomping indicator says
+// what happens to the line breaks at the end: `-` none is kept, none = exactly one, `+` all of them.
+func vlBlockScalar(s string, col int, ind byte) string {
+	body := strings.TrimRight(s, "\n")
+	trail := len(s) - len(body)
+	chomp := ""
+	switch {
+	case trail == 0:
+		chomp = "-"
+	case trail >= 2:
+		chomp = "+"
+	}
+	var sb strings.Builder
+	sb.WriteString(string(ind) + "2" + chomp + "\n")
+	pad := strings.Repeat(" ", col+2)
+	for _, ln := range strings.Split(body, "\n") {
+		if ln != "" {
+			sb.WriteString(pad + ln)
+		}
+		sb.WriteByte('\n')
+	}
+	for i := 1; i < trail; i++ {
+		sb.WriteByte('\n')
+	}
+	return sb.String()
+}
+
+// vlYamlBlockValue writes ` <value>\n` behind `key:` (the key at column col) in block style: maps and lists one member per
+// line, strings as block scalars where the text allows it (double-quoted otherwise), members of lists that are not strings
+// in flow style.
+func vlYamlBlockValue(sb *strings.Builder, c *vlCval, col int, ind byte) {
+	str := func(s string, col int) {
+		switch {
+		case ind == '>' && vlFoldOK(s):
+			sb.WriteString(" " + vlBlockScalar(s, col, '>'))
+		case vlBlockOK(s):
+			sb.WriteString(" " + vlBlockScalar(s, col, '|'))
+		default:
+			sb.WriteString(" " + vlYamlStr(s) + "\n")
+		}
+	}
+	switch {
+	case c.k == 's':
+		str(c.s, col)
+	case c.k == 'l' && len(c.l) > 0:
+		sb.WriteByte('\n')
+		for _, e := range c.l {
+			sb.WriteString(strings.Repeat(" ", col+2) + "-")
+			if e.k == 's' {
+				str(e.s, col+2)
+			} else {
+				sb.WriteString(" " + e.yaml() + "\n")
+			}
+		}
+	case c.k == 'm' && len(c.mk) > 0:
+		sb.WriteByte('\n')
+		for i, k := range c.mk {
+			sb.WriteString(strings.Repeat(" ", col+2) + vlYamlStr(k) + ":")
+			vlYamlBlockValue(sb, c.mv[i], col+2, ind)
+		}
+	default:
+		sb.WriteString(" " + c.yaml() + "\n")
+	}
+}
+
+// vlYamlDocStyled: the configuration as a YAML document of the given style; the key `last` (when the configuration has
+// it) is written as the last one.
+//
+//	1  block style, strings as literal block scalars (`|`)
+//	2  block style, one-line strings as folded block scalars (`>`), the others literal
+//	3  flow style behind a byte order mark, blank lines and a comment; blank lines and blanks behind the last line
+//	4  style 1, the whole document indented by two columns
+//	5  flow style, the document ends right behind its last value (no final line break)
+//	6  style 1 behind a byte order mark and blank lines
+func vlYamlDocStyled(cfg *vlCval, style int, last string) string {
+	if len(cfg.mk) == 0 || style <= 0 {
+		return vlYamlDoc(cfg)
+	}
+	var order []int
+	lastIdx := -1
+	for i, k := range cfg.mk {
+		if k == last {
+			lastIdx = i
+		} else {
+			order = append(order, i)
+		}
+	}
+	if lastIdx >= 0 {
+		order = append(order, lastIdx)
+	}
+	var sb strings.Builder
+	switch style {
+	case 3, 5:
+		for _, i := range order {
+			sb.WriteString(vlYamlStr(cfg.mk[i]) + ": " + cfg.mv[i].yaml() + "\n")
+		}
+		if style == 3 {
+			return vlBOM + "\n\n# generated\n" + sb.String() + "\n  \n\n"
+		}
+		return strings.TrimSuffix(sb.String(), "\n")
+	}
+	col, ind := 0, byte('|')
+	if style == 2 {
+		ind = '>'
+	}
+	if style == 4 {
+		col = 2
+	}
+	for _, i := range order {
+		sb.WriteString(strings.Repeat(" ", col) + vlYamlStr(cfg.mk[i]) + ":")
+		vlYamlBlockValue(&sb, cfg.mv[i], col, ind)
+	}
+	if style == 6 {
+		return vlBOM + "\n\n" + sb.String()
+	}
+	return sb.String()
+}
+
+// vlGenWsString: a text whose white space matters: one to three lines of words, blanks in front of / behind a line, zero to
+// three line breaks at the end, now and then an empty line in front.
+func vlGenWsString(r *hx.Rng) string {
+	var sb strings.Builder
+	if r.P(1, 8) {
+		sb.WriteString("\n")
+	}
+	for i, n := 0, 1+r.Intn(3); i < n; i++ {
+		if i > 0 {
+			sb.WriteString("\n")
+			if r.P(1, 6) {
+				sb.WriteString("\n")
+			}
+		}
+		if r.P(1, 4) {
+			sb.WriteString(strings.Repeat(" ", 1+r.Intn(3)))
+		}
+		sb.WriteString(vlGenPlainWord(r))
+		for j, m := 0, r.Intn(3); j < m; j++ {
+			sb.WriteString([]string{" ", " ", "  ", ": ", " - ", " # ", "\t"}[r.Intn(7)] + vlGenPlainWord(r))
+		}
+		if r.P(1, 5) {
+			sb.WriteString([]string{" ", "  ", "\t"}[r.Intn(3)])
+		}
+	}
+	sb.WriteString(strings.Repeat("\n", []int{0, 1, 1, 1, 2, 2, 3}[r.Intn(7)]))
+	return sb.String()
+}
+
+// vlGenC17Doc: a C17 case whose document is written in one of the styles of vlYamlDocStyled, one in three through a file.
+// Three in five bind texts with significant white space (to string, *string, any, []string, map[string]string,
+// map[string]any, a struct of strings); the others are ordinary cases of the other generators, written differently.
+func vlGenC17Doc(r *hx.Rng) *vlVcase {
+	var c *vlVcase
+	switch r.Intn(5) {
+	case 0:
+		c = vlGenC17(r)
+	case 1:
+		c = vlGenC17Default(r)
+	default:
+		ws := func() *vlCval { return vlCStr(vlGenWsString(r)) }
+		strs := func(n int) map[string]*vlCval {
+			kv := map[string]*vlCval{}
+			for len(kv) < n {
+				kv[vlGenKey(r)] = ws()
+			}
+			return kv
+		}
+		var t *vlFty
+		var v *vlCval
+		switch r.Intn(9) {
+		case 0, 1, 2:
+			t, v = vlTS, ws()
+		case 3:
+			t, v = vlTPS, ws()
+		case 4:
+			t, v = vlTA, ws()
+		case 5:
+			t = vlTLS
+			v = vlCList()
+			for i, n := 0, 1+r.Intn(3); i < n; i++ {
+				v.l = append(v.l, ws())
+			}
+		case 6:
+			t, v = vlTMS, vlCMap(strs(1+r.Intn(3)))
+		case 7:
+			kv := strs(1 + r.Intn(2))
+			kv[vlGenKey(r)] = vlCInt(vlGenInt(r) % 100000)
+			t, v = vlTMA, vlCMap(kv)
+		default:
+			kv := strs(1 + r.Intn(3))
+			v = vlCMap(kv)
+			t = &vlFty{k: 'T'}
+			for _, k := range v.mk {
+				t.fields = append(t.fields, vlFfield{k, vlTS, ""})
+			}
+		}
+		key := vlGenKey(r)
+		c = &vlVcase{kind: "V3", t: t, subject: v, cfg: vlCMap(map[string]*vlCval{"kz": vlCStr("zz"), key: v}),
+			tags: [][]vlTnode{{vlTPH(key)}, {vlTLit(key)}, {vlTLit(key)}}, labels: []string{"ws-text"}}
+		vlGenFlagsC17(r, c)
+	}
+	c.ystyle = 1 + r.Intn(vlDocStyles)
+	c.file = r.P(1, 3)
+	c.labels = append(c.labels, "doc-styled")
+	return c
+}
+
+// ---------------------------------------------------------------- (2) Go-declared holders with embedded structs
+
+type vlGoEmbA struct {
+	H0 int `value:"${k},validate=min=1 max=100"`
+}
+
+type vlGoHolder1 struct {
+	vlGoEmbA
+	Name string
+}
+
+type vlGoEmbB struct {
+	H0 string `value:"${k},validate=required alpha"`
+}
+
+type vlGoEmbMid struct {
+	vlGoEmbB
+	Note string
+}
+
+type vlGoHolder2 struct {
+	vlGoEmbMid
+	Name string `value:"${name:none}"`
+}
+
+type vlGoEmbC struct {
+	H0 int `value:"#{${k}*2},validate=max=100"`
+}
+
+type vlGoHolder3 struct {
+	vlGoEmbC
+	Own int `prop:"k"`
+}
+
+type vlGoSect struct {
+	Port int    `yaml:"port" validate:"min=1,max=65535"`
+	Name string `yaml:"name" validate:"required"`
+}
+
+type vlGoEmbD struct {
+	H0 vlGoSect `prefix:"k,validate"`
+}
+
+type vlGoHolder4 struct {
+	vlGoEmbD
+	Label string
+}
+
+type vlGoHolderKind struct {
+	kind string
+	t    *vlFty
+	tag  string // the whole tag text (value part and arguments)
+	mk   func() (holder, inner reflect.Value)
+}
+
+var vlGoHolders = []vlGoHolderKind{
+	{"E", vlTI, "${k},validate=min=1 max=100", func() (reflect.Value, reflect.Value) {
+		h := reflect.ValueOf(&vlGoHolder1{})
+		return h, h.Elem().Field(0)
+	}},
+	{"E", vlTS, "${k},validate=required alpha", func() (reflect.Value, reflect.Value) {
+		h := reflect.ValueOf(&vlGoHolder2{})
+		return h, h.Elem().Field(0).Field(0)
+	}},
+	{"E", vlTI, "#{${k}*2},validate=max=100", func() (reflect.Value, reflect.Value) {
+		h := reflect.ValueOf(&vlGoHolder3{})
+		return h, h.Elem().Field(0)
+	}},
+	{"Q", &vlFty{k: 'T', fields: []vlFfield{{"port", vlTI, "min=1,max=65535"}, {"name", vlTS, "required"}}}, "k,validate", func() (reflect.Value, reflect.Value) {
+		h := reflect.ValueOf(&vlGoHolder4{})
+		return h, h.Elem().Field(0)
+	}},
+}
+
+// vlGoHolderFits: the case is what the Go-declared holder number c.gotype declares.
+func vlGoHolderFits(c *vlVcase) bool {
+	if c.gotype <= 0 {
+		return true
+	}
+	if c.gotype > len(vlGoHolders) || len(c.tags) != 1 || c.set != nil {
+		return false
+	}
+	g := vlGoHolders[c.gotype-1]
+	return g.kind == c.kind && g.t.code() == c.t.code() && g.tag == vlTagText(c.tags[0])+c.args
+}
+
+// vlGoCase: a case on the Go-declared holder number n (1-based) under the given configuration.
+func vlGoCase(n int, cfg map[string]*vlCval) *vlVcase {
+	g := vlGoHolders[n-1]
+	val, args := vlSplitTagArgs(g.tag)
+	c := &vlVcase{kind: g.kind, t: g.t, cfg: vlCMap(cfg), args: args, gotype: n, labels: []string{"corpus", "embedded", "go-declared"}}
+	if g.kind == "Q" {
+		c.tags = [][]vlTnode{{vlTLit(val)}}
+	} else {
+		c.tags = [][]vlTnode{vlParseTagTree(val, false)}
+	}
+	return c
+}
+
+// vlGenEmbeddedCase: a case of the validation / expression generators whose tagged field lives in an anonymous embedded
+// struct, one or two levels deep; cases that carry a validate argument are preferred (up to four draws).
+func vlGenEmbeddedCase(r *hx.Rng) *vlVcase {
+	var c *vlVcase
+	for try := 0; try < 4; try++ {
+		switch r.Intn(6) {
+		case 0, 1:
+			c = vlGenValidateCase(r)
+		case 2:
+			c = vlGenExprCase(r)
+		case 3:
+			c = vlGenPtrZeroValidateCase(r)
+		case 4:
+			c = vlGenNestedValidateCase(r)
+		default:
+			c = vlGenQuoteTextCase(r)
+		}
+		if _, has := vlValidateArg(c.args); has {
+			break
+		}
+	}
+	c.embed = 1 + r.Intn(2)
+	c.labels = append(c.labels, "embedded")
+	return c
+}
+
+// vlValueEmbeddedCorpus: constrained fields inside embedded structs, violated and satisfied.
+func vlValueEmbeddedCorpus(w *hx.Writer) {
+	for depth := 1; depth <= 2; depth++ {
+		for _, dep := range []bool{false, true} {
+			mk := func(c *vlVcase) {
+				c.embed, c.dep = depth, dep
+				c.labels = append(c.labels, "embedded")
+				vlRunCase(c, w)
+			}
+			mk(vlExprCase(vlTI, map[string]*vlCval{"k": vlCInt(5)}, ",validate=min=1 max=100", vlTPH("k")))
+			mk(vlExprCase(vlTI, map[string]*vlCval{"k": vlCInt(500)}, ",validate=min=1 max=100", vlTPH("k")))
+			mk(vlExprCase(vlTI, map[string]*vlCval{"base": vlCInt(50), "factor": vlCInt(10)}, ",validate=min=1 max=100", vlTExpr(vlTPH("base"), vlTLit("*"), vlTPH("factor"))))
+			mk(vlExprCase(vlTI, map[string]*vlCval{"base": vlCInt(5), "factor": vlCInt(10)}, ",validate=min=1 max=100", vlTExpr(vlTPH("base"), vlTLit("*"), vlTPH("factor"))))
+			mk(vlExprCase(vlTS, map[string]*vlCval{"owner": vlCStr("ops42")}, ",validate=required alpha", vlTPH("owner")))
+			mk(vlExprCase(vlTS, map[string]*vlCval{"owner": vlCStr("ops")}, ",validate=required alpha", vlTPH("owner")))
+			st := &vlFty{k: 'T', fields: []vlFfield{{"port", vlTI, "min=1,max=65535"}, {"name", vlTS, "required"}}}
+			for _, port := range []int64{8080, 0} {
+				mk(&vlVcase{kind: "Q", t: st, cfg: vlCMap(map[string]*vlCval{"k": vlCMap(map[string]*vlCval{"port": vlCInt(port), "name": vlCStr("db")})}),
+					args: ",validate", tags: [][]vlTnode{{vlTLit("k")}}, labels: []string{"corpus"}})
+			}
+		}
+	}
+	vlRunCase(vlGoCase(1, map[string]*vlCval{"k": vlCInt(5)}), w)
+	vlRunCase(vlGoCase(1, map[string]*vlCval{"k": vlCInt(500)}), w)
+	vlRunCase(vlGoCase(2, map[string]*vlCval{"k": vlCStr("ops")}), w)
+	vlRunCase(vlGoCase(2, map[string]*vlCval{"k": vlCStr("ops42")}), w)
+	vlRunCase(vlGoCase(3, map[string]*vlCval{"k": vlCInt(21)}), w)
+	vlRunCase(vlGoCase(3, map[string]*vlCval{"k": vlCInt(70)}), w)
+	vlRunCase(vlGoCase(4, map[string]*vlCval{"k": vlCMap(map[string]*vlCval{"port": vlCInt(5432), "name": vlCStr("db")})}), w)
+	vlRunCase(vlGoCase(4, map[string]*vlCval{"k": vlCMap(map[string]*vlCval{"port": vlCInt(70000), "name": vlCStr("db")})}), w)
+}
+
+// vlValueDocCorpus: documents that end in a block scalar / start behind a byte order mark / are indented as a whole.
+func vlValueDocCorpus(w *hx.Writer) {
+	texts := []string{"Welcome to demo.\nAuthorised use only.\n", "--\nThe demo team\n\n", "one line", "one line\n", "  indented first line\nsecond\n",
+		"trailing blanks  ", "a: b # c\n\n\n", "\nstarts with an empty line\n", "tab\there\t\n"}
+	for i, s := range texts {
+		for style := 1; style <= vlDocStyles; style++ {
+			c := vlC17case(vlTS, vlCStr(s), "", "doc-styled")
+			c.ystyle, c.file = style, (i+style)%3 == 0
+			vlRunCase(c, w)
+		}
+	}
+	st := &vlFty{k: 'T', fields: []vlFfield{{"name", vlTS, ""}, {"port", vlTI, ""}, {"zmotd", vlTS, ""}}}
+	for style := 1; style <= vlDocStyles; style++ {
+		for _, c := range []*vlVcase{
+			vlC17case(st, vlCMap(map[string]*vlCval{"name": vlCStr("demo"), "port": vlCInt(8080), "zmotd": vlCStr(texts[0])}), "", "doc-styled"),
+			vlC17case(vlTLS, vlCList(vlCStr("first\n"), vlCStr(texts[1])), "", "doc-styled"),
+			vlC17case(vlTMA, vlCMap(map[string]*vlCval{"a": vlCInt(1), "sig": vlCStr(texts[1])}), "", "doc-styled"),
+			vlC17case(vlTMS, vlCMap(map[string]*vlCval{"a": vlCStr("x"), "sig": vlCStr(texts[0])}), "", "doc-styled"),
+			vlC17case(vlTA, vlCStr(texts[1]), "", "doc-styled"),
+			vlC17case(vlTI, vlCInt(7), "", "doc-styled"),
+		} {
+			c.ystyle = style
+			vlRunCase(c, w)
+		}
+	}
+}
+
+// ---------------------------------------------------------------- (3) kind HM: a component edits the value it was given
+//
+//	HM <mode> <cfg> <muts> <eager> <late>
+//
+// A field of type map[string]any or []any bound by prefix is the COMPONENT'S value: what the component does to it — fill in
+// a default, drop a sentinel, rewrite an element; the classic Init pattern — is not a change of the configuration
+// (Configure.Set is).  A history: holder A binds sections / lists by prefix into untyped maps and lists; the top level of
+// those values is edited in place; holder B binds the same subtrees (or keys inside them) by prefix, through a placeholder,
+// through the shorthand — B must get the CONFIGURED value, whichever of the two was populated first.
+//
+//	mode   s     two Apps that share one Configure: the first starts with A, the harness edits A's fields, the second
+//	             (app.SetConfigure, no loaders) starts with B
+//	       b     one App starts with A and B (both populated by the start), the harness edits A's fields, B's fields are read
+//	             afterwards
+//	       z<n>  one App starts with A (and the LazyInit holder number n of vlLazyTable), the harness edits A's fields,
+//	             GetComponentByName creates B
+//	       i<n>  A is the Go-declared vlMutInit whose Init() edits its own fields; B = the LazyInit holder number n, fetched
+//	             after the start
+//	       ia iz A = vlMutInit, B = the Go-declared vlAaObs / vlZzObs of the same start, created before / after A (singletons
+//	             are created in the order of their names)
+//	muts   u(<field>:<op>,…)   op = s<hexkey>=<val> set a key | d<hexkey> delete a key | e<index>=<val> overwrite an element |
+//	             a=<val> append;  <field> = index of the eager field (a map[string]any or []any bound by prefix); top level only
+//	eager, late   as in kind HS (in the i modes and for the Go-declared holders the table says what they are)
+//
+// Observation: `<start> <eager field>… <second> <late field>…` — the eager fields BEFORE the edits (in the i modes: as Init
+// found them), the late fields after B's population (mode b, ia, iz: at the end).
+// Oracle (C17): every late field holds the document's value converted to its type: bound-aliased; the eager fields held
+// the document's value before they were edited: setget-first.
+
+type vlMut struct {
+	field int
+	op    byte // s d e a
+	key   string
+	idx   int
+	val   *vlCval
+}
+
+func vlMutsTok(ms []vlMut) string {
+	var p []string
+	for _, m := range ms {
+		s := strconv.Itoa(m.field) + ":" + string(m.op)
+		switch m.op {
+		case 's':
+			s += hx.Hex(m.key) + "=" + m.val.tok()
+		case 'd':
+			s += hx.Hex(m.key)
+		case 'e':
+			s += strconv.Itoa(m.idx) + "=" + m.val.tok()
+		case 'a':
+			s += "=" + m.val.tok()
+		}
+		p = append(p, s)
+	}
+	return "u(" + strings.Join(p, ",") + ")"
+}
+
+func vlParseMuts(s string) ([]vlMut, bool) {
+	if !strings.HasPrefix(s, "u(") {
+		return nil, false
+	}
+	rest := s[2:]
+	var ms []vlMut
+	for {
+		if rest == ")" {
+			return ms, true
+		}
+		i := strings.IndexByte(rest, ':')
+		if i < 0 || i+1 >= len(rest) {
+			return nil, false
+		}
+		f, err := strconv.Atoi(rest[:i])
+		if err != nil || f < 0 {
+			return nil, false
+		}
+		m := vlMut{field: f, op: rest[i+1]}
+		rest = rest[i+2:]
+		head := func(stop string) (string, bool) {
+			j := strings.IndexAny(rest, stop)
+			if j < 0 {
+				return "", false
+			}
+			h := rest[:j]
+			rest = rest[j:]
+			return h, true
+		}
+		val := func() bool {
+			if !strings.HasPrefix(rest, "=") {
+				return false
+			}
+			v, r2, ok := vlParseCval(rest[1:])
+			if !ok || v.k == 'z' {
+				return false
+			}
+			m.val, rest = v, r2
+			return true
+		}
+		switch m.op {
+		case 's', 'd':
+			h, ok := head("=,)")
+			if !ok {
+				return nil, false
+			}
+			if m.key, err = hx.UnHex(h); err != nil {
+				return nil, false
+			}
+			if m.op == 's' && !val() {
+				return nil, false
+			}
+		case 'e':
+			h, ok := head("=")
+			if !ok {
+				return nil, false
+			}
+			if m.idx, err = strconv.Atoi(h); err != nil || m.idx < 0 || !val() {
+				return nil, false
+			}
+		case 'a':
+			if !val() {
+				return nil, false
+			}
+		default:
+			return nil, false
+		}
+		ms = append(ms, m)
+		rest = strings.TrimPrefix(rest, ",")
+		if rest == "" {
+			return nil, false
+		}
+	}
+}
+
+// vlApplyMut edits the TOP LEVEL of a bound map[string]any / []any in place, as the component that owns the field would.
+func vlApplyMut(f reflect.Value, m vlMut) {
+	if !f.IsValid() || !f.CanSet() {
+		return
+	}
+	var nv reflect.Value
+	if m.val != nil {
+		nv = reflect.ValueOf(m.val.native())
+	}
+	switch {
+	case f.Kind() == reflect.Map && !f.IsNil() && f.Type().Key().Kind() == reflect.String && f.Type().Elem().Kind() == reflect.Interface:
+		switch m.op {
+		case 's':
+			f.SetMapIndex(reflect.ValueOf(m.key), nv)
+		case 'd':
+			f.SetMapIndex(reflect.ValueOf(m.key), reflect.Value{})
+		}
+	case f.Kind() == reflect.Slice && f.Type().Elem().Kind() == reflect.Interface:
+		switch m.op {
+		case 'e':
+			if m.idx < f.Len() {
+				f.Index(m.idx).Set(nv)
+			}
+		case 'a':
+			f.Set(reflect.Append(f, nv))
+		}
+	}
+}
+
+// vlMutInit: a component that completes ITS OWN copy of the configuration once its properties are set.
+type vlMutInit struct {
+	E0     map[string]any `prefix:"sa"`
+	E1     []any          `prefix:"sl"`
+	E2     map[string]any `prefix:"sa.sb"`
+	muts   []vlMut
+	before []string
+}
+
+func (h *vlMutInit) Init() error {
+	v := reflect.ValueOf(h).Elem()
+	h.before = nil
+	for i := range vlMutInitFields {
+		h.before = append(h.before, vlRender(v.Field(i)))
+	}
+	for _, m := range h.muts {
+		if m.field < len(vlMutInitFields) {
+			vlApplyMut(v.Field(m.field), m)
+		}
+	}
+	return nil
+}
+
+var vlMutInitFields = []vlHField{{"prefix", vlTMA, "sa"}, {"prefix", vlTLA, "sl"}, {"prefix", vlTMA, "sa.sb"}}
+
+// the observers of the modes ia / iz: the same fields under a name in front of / behind vlMutInit's
+type vlObsFields struct {
+	L0 map[string]any `prefix:"sa"`
+	L1 []any          `prefix:"sl"`
+	L2 vlSecA         `prefix:"sa"`
+	L3 string         `value:"${sa.ka}"`
+	L4 []string       `prefix:"sl"`
+	L5 map[string]any `prefix:"sa.sb"`
+	L6 int            `prop:"sa.sb.ke"`
+	L7 vlSecB         `prefix:"SA.SB"`
+}
+
+type vlAaObs struct{ vlObsFields }
+
+type vlZzObs struct{ vlObsFields }
+
+var vlObsFieldList = []vlHField{{"prefix", vlTMA, "sa"}, {"prefix", vlTLA, "sl"}, {"prefix", vlTSecA, "sa"}, {"value", vlTS, "${sa.ka}"},
+	{"prefix", vlTLS, "sl"}, {"prefix", vlTMA, "sa.sb"}, {"prop", vlTI, "sa.sb.ke"}, {"prefix", vlTSecB, "SA.SB"}}
+
+// vlLazy5: a LazyInit holder that binds the list (the holders 1-4 of vlLazyTable bind the section only)
+type vlLazy5 struct {
+	definition.LazyInitComponent
+	L0 []any          `prefix:"sl"`
+	L1 []string       `prefix:"sl"`
+	L2 map[string]any `prefix:"sa"`
+	L3 string         `prop:"sa.ka"`
+	L4 vlSecB         `prefix:"sa.sb"`
+}
+
+// the LazyInit holders of kind HM: the four of vlLazyTable and vlLazy5 (vlLazyTable itself stays as it is: the generator
+// of kind HS draws from it)
+var vlLazyTableM = append(append([]vlLazyKind{}, vlLazyTable...),
+	vlLazyKind{func() any { return &vlLazy5{} }, []vlHField{{"prefix", vlTLA, "sl"}, {"prefix", vlTLS, "sl"}, {"prefix", vlTMA, "sa"}, {"prop", vlTS, "sa.ka"}, {"prefix", vlTSecB, "sa.sb"}}})
+
+type vlHMCase struct {
+	mode   string
+	cfg    *vlCval
+	muts   []vlMut
+	eager  []vlHField
+	late   []vlHField
+	labels []string
+}
+
+// vlHMLazy: the index of the LazyInit holder a mode z<n> / i<n> names (-1: none)
+func vlHMLazy(mode string) int {
+	if len(mode) < 2 || (mode[0] != 'z' && mode[0] != 'i') {
+		return -1
+	}
+	n, err := strconv.Atoi(mode[1:])
+	if err != nil || n < 0 || n >= len(vlLazyTableM) {
+		return -1
+	}
+	return n
+}
+
+func vlHMModeOK(mode string) bool {
+	return mode == "s" || mode == "b" || mode == "ia" || mode == "iz" || vlHMLazy(mode) >= 0
+}
+
+// vlHMFixed: the holders a mode fixes (nil = the line says)
+func vlHMFixed(mode string) (eager, late []vlHField) {
+	if mode[0] == 'i' {
+		eager = vlMutInitFields
+	}
+	switch {
+	case mode == "ia" || mode == "iz":
+		late = vlObsFieldList
+	case vlHMLazy(mode) >= 0:
+		late = vlLazyTableM[vlHMLazy(mode)].fields
+	}
+	return
+}
+
+// vlRunHMReal: the history on the real container.  eagerObs = the eager fields before they were edited.
+func vlRunHMReal(c *vlHMCase) (start string, eagerObs []string, second string, late []reflect.Value) {
+	doc := vlYamlDoc(c.cfg)
+	var eh, lh reflect.Value
+	lateOff := 0
+	var mi *vlMutInit
+	if c.mode[0] == 'i' {
+		mi = &vlMutInit{muts: c.muts}
+		eh = reflect.ValueOf(mi)
+	} else {
+		eh = reflect.New(reflect.StructOf(vlHSStructFields("E", c.eager)))
+	}
+	lateFields := func() reflect.Value { return lh.Elem() }
+	switch {
+	case c.mode == "ia":
+		o := &vlAaObs{}
+		lh = reflect.ValueOf(o)
+		lateFields = func() reflect.Value { return lh.Elem().Field(0) }
+	case c.mode == "iz":
+		o := &vlZzObs{}
+		lh = reflect.ValueOf(o)
+		lateFields = func() reflect.Value { return lh.Elem().Field(0) }
+	case vlHMLazy(c.mode) >= 0:
+		lh = reflect.ValueOf(vlLazyTableM[vlHMLazy(c.mode)].mk())
+		lateOff = 1 // behind the embedded LazyInitComponent
+	default:
+		lh = reflect.New(reflect.StructOf(vlHSStructFields("L", c.late)))
+	}
+	// the harness edits A's fields (modes s b z): what was bound is observed first
+	edit := func() {
+		if mi != nil {
+			eagerObs = mi.before
+			return
+		}
+		for i := range c.eager {
+			eagerObs = append(eagerObs, vlRender(eh.Elem().Field(i)))
+		}
+		for _, m := range c.muts {
+			if m.field < len(c.eager) {
+				vlApplyMut(eh.Elem().Field(m.field), m)
+			}
+		}
+	}
+	var err1, err2 error
+	ran2 := false
+	pan := hx.Guard(func() {
+		a := app.NewApp()
+		defer a.Close()
+		run := func(comps ...any) error {
+			return a.Run(app.LogLevel(syslog.LvPanic), app.SetConfigLoader(loader.NewRawLoader([]byte(doc))), app.SetComponents(comps...))
+		}
+		switch {
+		case c.mode == "s":
+			if err1 = run(eh.Interface()); err1 != nil {
+				return
+			}
+			edit()
+			b := app.NewApp()
+			defer b.Close()
+			ran2 = true
+			err2 = b.Run(app.LogLevel(syslog.LvPanic), app.SetConfigure(a.Configure), app.SetConfigLoader(), app.SetComponents(lh.Interface()))
+		case c.mode == "b" || c.mode == "ia" || c.mode == "iz":
+			if err1 = run(eh.Interface(), lh.Interface()); err1 != nil {
+				return
+			}
+			edit()
+			ran2 = true
+		default:
+			if err1 = run(eh.Interface(), lh.Interface()); err1 != nil {
+				return
+			}
+			edit()
+			ran2 = true
+			_, err2 = a.GetComponentByName(framework_helper.GetComponentName(lh.Interface()))
+		}
+	})
+	if pan != nil {
+		return "panic", nil, "", nil
+	}
+	start = "ok"
+	if err1 != nil {
+		return "err", nil, "", nil
+	}
+	if ran2 {
+		second = "ok"
+		if err2 != nil {
+			second = "err"
+		} else {
+			for i := range c.late {
+				late = append(late, lateFields().Field(lateOff+i))
+			}
+		}
+	}
+	return
+}
+
+func vlRunHM(c *vlHMCase, w *hx.Writer) {
+	if fe, fl := vlHMFixed(c.mode); fe != nil || fl != nil {
+		if fe != nil {
+			c.eager = fe
+		}
+		if fl != nil {
+			c.late = fl
+		}
+	}
+	start, eagerObs, second, late := vlRunHMReal(c)
+	obs := append([]string{start}, eagerObs...)
+	if second != "" {
+		obs = append(obs, second)
+	}
+	for _, v := range late {
+		obs = append(obs, vlRender(v))
+	}
+	scn := strings.Join([]string{"HM", c.mode, c.cfg.tok(), vlMutsTok(c.muts), vlHolderTok(c.eager), vlHolderTok(c.late)}, " ")
+	out := hx.Case{Scn: scn, Obs: strings.Join(obs, " "), Tags: append([]string{"edit", "edit-mode-" + c.mode[:1]}, c.labels...)}
+	view := vlNewCurView(c.cfg, nil)
+	switch {
+	case start == "panic":
+		out.Oracle = "FAIL valuepath-panic the container panicked"
+	case start == "ok":
+		// the eager fields before the edits: rendered already; judged through their rendering
+		for i, f := range c.eager {
+			if i >= len(eagerObs) {
+				break
+			}
+			if want, ok := view.wantRender(f); ok && want != eagerObs[i] && out.Oracle == "" {
+				out.Oracle = fmt.Sprintf("FAIL setget-first eager field %s:%q holds %s, configured %s", f.name, f.tag, eagerObs[i], want)
+			}
+		}
+		claimed, allWhole := 0, len(c.late) > 0
+		for i, f := range c.late {
+			var got reflect.Value
+			if late != nil {
+				got = late[i]
+			} else {
+				got = reflect.Zero(f.t.rtype())
+			}
+			d, n, whole := view.judge(f, got)
+			claimed += n
+			allWhole = allWhole && whole
+			if late != nil && d != "" && out.Oracle == "" {
+				out.Oracle = fmt.Sprintf("FAIL bound-aliased after the owner of another field edited its own value (%s): late field %s", vlMutsTok(c.muts), d)
+			}
+		}
+		if second == "err" && allWhole && out.Oracle == "" {
+			out.Oracle = fmt.Sprintf("FAIL bound-aliased after %s: the later population failed although every key of the late holder is configured", vlMutsTok(c.muts))
+		}
+		if claimed > 0 {
+			out.Tags = append(out.Tags, "judged")
+		}
+	}
+	w.Put(out)
+}
+
+// wantRender: the rendering of the document's value for a prefix-bound field (ok=false: no claim).
+func (cv *vlCurView) wantRender(f vlHField) (string, bool) {
+	val, _ := vlSplitTagArgs(f.tag)
+	if f.name != "prefix" || strings.ContainsAny(val, "${}#") || val == "" {
+		return "", false
+	}
+	v, sure := cv.at(vlPathOf(val), true)
+	if !sure || v == nil || v.k == 'z' {
+		return "", false
+	}
+	want, err := vlDirectDecode(v.native(), f.t.rtype())
+	if err != nil {
+		return "", false
+	}
+	return vlRender(want), true
+}
+
+func vlHMReplay(f []string, w *hx.Writer) {
+	if len(f) != 6 || f[1] == "" || !vlHMModeOK(f[1]) {
+		return
+	}
+	cfg, rest, ok := vlParseCval(f[2])
+	if !ok || rest != "" || cfg.k != 'm' {
+		return
+	}
+	muts, ok := vlParseMuts(f[3])
+	if !ok {
+		return
+	}
+	eager, ok1 := vlParseHolder(f[4])
+	late, ok2 := vlParseHolder(f[5])
+	if !ok1 || !ok2 {
+		return
+	}
+	fe, fl := vlHMFixed(f[1])
+	if (fe != nil && vlHolderTok(fe) != vlHolderTok(eager)) || (fl != nil && vlHolderTok(fl) != vlHolderTok(late)) {
+		return // Go-declared holders: their fields are what the tables say
+	}
+	vlRunHM(&vlHMCase{mode: f[1], cfg: cfg, muts: muts, eager: eager, late: late, labels: []string{"replay"}}, w)
+}
+
+// vlHMDoc: the fixed vocabulary of the Go-declared holders: section sa (ka kb kc, sub-section sb: kd ke) and the list sl.
+func vlHMDoc(word func() string, num func() int64, flag bool, n int) *vlCval {
+	sl := vlCList()
+	for i := 0; i < n; i++ {
+		sl.l = append(sl.l, vlCStr(word()))
+	}
+	return vlCMap(map[string]*vlCval{"kz": vlCStr("zz"), "sl": sl,
+		"sa": vlCMap(map[string]*vlCval{"ka": vlCStr(word()), "kb": vlCInt(num()), "kc": vlCBool(flag),
+			"sb": vlCMap(map[string]*vlCval{"kd": vlCStr(word()), "ke": vlCInt(num())})})})
+}
+
+// vlGenMutsFor: one to three edits of the top level of the eager fields that are untyped maps / lists bound by prefix.
+func vlGenMutsFor(r *hx.Rng, doc *vlCval, eager []vlHField, word func() string, num func() int64) []vlMut {
+	var ms []vlMut
+	var cand []int
+	for i, f := range eager {
+		if f.name == "prefix" && (f.t.code() == "MA" || f.t.code() == "LA") {
+			cand = append(cand, i)
+		}
+	}
+	if len(cand) == 0 {
+		return nil
+	}
+	scalar := func() *vlCval {
+		if r.Bool() {
+			return vlCStr(word())
+		}
+		return vlCInt(num())
+	}
+	for i, n := 0, 1+r.Intn(3); i < n; i++ {
+		fi := cand[r.Intn(len(cand))]
+		val, _ := vlSplitTagArgs(eager[fi].tag)
+		at := vlGetPath(vlLowerKeys(doc), vlPathOf(val))
+		if at == nil {
+			continue
+		}
+		switch {
+		case at.k == 'm' && len(at.mk) > 0:
+			k := at.mk[r.Intn(len(at.mk))]
+			switch r.Intn(4) {
+			case 0:
+				ms = append(ms, vlMut{field: fi, op: 's', key: "timeout" + vlGenDigits(r, 1, false), val: scalar()})
+			case 1:
+				ms = append(ms, vlMut{field: fi, op: 'd', key: k})
+			case 2:
+				ms = append(ms, vlMut{field: fi, op: 's', key: k, val: vlCMap(map[string]*vlCval{"edited": vlCBool(true)})})
+			default:
+				ms = append(ms, vlMut{field: fi, op: 's', key: k, val: scalar()})
+			}
+		case at.k == 'l' && len(at.l) > 0:
+			if r.P(1, 4) {
+				ms = append(ms, vlMut{field: fi, op: 'a', val: scalar()})
+			} else {
+				ms = append(ms, vlMut{field: fi, op: 'e', idx: r.Intn(len(at.l)), val: vlCStr("primary:" + word())})
+			}
+		}
+	}
+	return ms
+}
+
+// vlGenHM: a history of kind HM.
+func vlGenHM(r *hx.Rng) *vlHMCase {
+	word := func() string { return vlGenPlainWord(r) + ".internal" }
+	num := func() int64 { return int64(1 + r.Intn(9000)) }
+	c := &vlHMCase{cfg: vlHMDoc(word, num, r.Bool(), 1+r.Intn(3))}
+	modes := []string{"s", "b", "b", "ia", "iz"}
+	for n := range vlLazyTableM {
+		modes = append(modes, "z"+strconv.Itoa(n), "i"+strconv.Itoa(n))
+	}
+	c.mode = modes[r.Intn(len(modes))]
+	if c.mode[0] == 'i' {
+		c.eager = vlMutInitFields
+	} else {
+		pool := []vlHField{{"prefix", vlTMA, "sa"}, {"prefix", vlTLA, "sl"}, {"prefix", vlTMA, "sa.sb"}, {"prefix", vlTMA, "SA"}, {"prefix", vlTLA, "SL"},
+			{"prefix", vlTSecA, "sa"}, {"value", vlTS, "${sa.ka}"}, {"prefix", vlTLS, "sl"}}
+		c.eager = append(c.eager, pool[r.Intn(5)])
+		for _, i := range r.Perm(len(pool))[:1+r.Intn(2)] {
+			c.eager = append(c.eager, pool[i])
+		}
+	}
+	_, fl := vlHMFixed(c.mode)
+	if fl != nil {
+		c.late = fl
+	} else {
+		secKa := &vlFty{k: 'T', fields: []vlFfield{{"ka", vlTS, ""}, {"kc", vlTB, ""}}}
+		pool := []vlHField{{"prefix", vlTMA, "sa"}, {"prefix", vlTLA, "sl"}, {"prefix", vlTMA, "sa.sb"}, {"prefix", vlTSecA, "sa"}, {"prefix", vlTLS, "sl"},
+			{"prefix", vlTSecB, "sa.sb"}, {"prefix", secKa, "SA"}, {"value", vlTS, "${sa.ka}"}, {"prop", vlTI, "sa.kb"}, {"prop", vlTI, "sa.sb.ke"},
+			{"value", vlTS, "${sa.sb.kd}/${sa.kb}"}, {"prefix", vlTS, "sa.ka"}, {"prefix", vlTA, "sl"}, {"prefix", vlTMS, "sa.sb"}}
+		for _, i := range r.Perm(len(pool))[:3+r.Intn(3)] {
+			c.late = append(c.late, pool[i])
+		}
+	}
+	c.muts = vlGenMutsFor(r, c.cfg, c.eager, word, num)
+	c.labels = []string{"gen"}
+	return c
+}
+
+// vlValueHMCorpus: the owner of an untyped map / list completes its own copy; every other binding shows the configuration.
+func vlValueHMCorpus(w *hx.Writer) {
+	word := func() string { return "a.example.org" }
+	doc := vlHMDoc(word, func() int64 { return 3 }, false, 2)
+	muts := []vlMut{{field: 0, op: 's', key: "timeout", val: vlCStr("30s")}, {field: 0, op: 'd', key: "ka"}, {field: 0, op: 's', key: "kb", val: vlCInt(99)},
+		{field: 1, op: 'e', idx: 0, val: vlCStr("primary:a.example.org")}, {field: 1, op: 'a', val: vlCStr("c.example.org")}, {field: 2, op: 'd', key: "kd"}}
+	modes := []string{"s", "b", "ia", "iz"}
+	for n := range vlLazyTableM {
+		modes = append(modes, "z"+strconv.Itoa(n), "i"+strconv.Itoa(n))
+	}
+	for _, mode := range modes {
+		c := &vlHMCase{mode: mode, cfg: doc, muts: muts, eager: vlMutInitFields, late: vlObsFieldList, labels: []string{"corpus"}}
+		vlRunHM(c, w)
+	}
+	vlRunHM(&vlHMCase{mode: "b", cfg: doc, eager: vlMutInitFields, late: vlObsFieldList, labels: []string{"corpus"}}, w) // nothing is edited
 }
